@@ -157,6 +157,48 @@ theorem ringPos_open_ring_witness :
   · norm_num [ringPos, segs, ringWinding, ringEdge]
   · rw [lineCoord_iff]; exact SegMem_left _ _
 
+/-- [T] the same witness seen through the full statement of `ringPos_boundary_iff_partial`: without closedness
+the equivalence fails (right-hand side true, left-hand side false). Run through the real code
+(`C03.ring 2 0 1 0 0 0 1`, release build): `Outside`, as the model says — so this is the function's documented
+precondition (`debug_assert!(linestring.is_closed())`; every caller passes a `Polygon` ring, closed by construction),
+a limit of the statement and not a defect of geo. -/
+theorem ringPos_boundary_iff_partial_witness :
+    ¬ (ringPos ⟨0, 1⟩ [⟨0, 1⟩, ⟨0, 0⟩] = .onBoundary ↔
+      ∃ edge ∈ segs [(⟨0, 1⟩ : Pt), ⟨0, 0⟩], lineCoord edge.1 edge.2 ⟨0, 1⟩ = true) := by
+  obtain ⟨h1, h2⟩ := ringPos_open_ring_witness
+  intro h
+  have := h.mpr ⟨(⟨0, 1⟩, ⟨0, 0⟩), by simp [segs], h2⟩
+  rw [h1] at this; cases this
+
+/-- [T] `ringPos_boundary_iff`: the boundary test on **every closed coordinate list**, the length hypothesis of
+`ringPos_boundary_iff_partial` removed: `OnBoundary` exactly when the list is the single coordinate `p` (the
+one-coordinate prologue of `coord_pos_relative_to_ring`) or `p` lies on one of its edges. Closedness is the domain
+of the function (its `debug_assert!`), shown necessary by `ringPos_boundary_iff_partial_witness`. -/
+theorem ringPos_boundary_iff (p : Pt) (ring : List Pt) (hclosed : ring.head? = ring.getLast?) :
+    ringPos p ring = .onBoundary ↔
+      ring = [p] ∨ ∃ edge ∈ segs ring, lineCoord edge.1 edge.2 p = true := by
+  match ring, hclosed with
+  | [], _ => simp [ringPos, segs]
+  | [c], _ =>
+    by_cases h : p = c
+    · subst h; simp [ringPos]
+    · have h' : c ≠ p := fun e => h e.symm
+      simp [ringPos, segs, h, h']
+  | a :: b :: rest, hclosed =>
+    rw [ringPos_boundary_iff_partial p (a :: b :: rest) (by simp) hclosed]
+    constructor
+    · exact Or.inr
+    · rintro (h | h)
+      · simp at h
+      · exact h
+
+example : ringPos ⟨3, 4⟩ [⟨3, 4⟩] = .onBoundary :=
+  (ringPos_boundary_iff _ _ rfl).mpr (Or.inl rfl)
+
+example : ringPos ⟨1, 1⟩ [⟨0, 0⟩, ⟨2, 2⟩, ⟨0, 0⟩] = .onBoundary :=
+  (ringPos_boundary_iff _ _ rfl).mpr (Or.inr ⟨(⟨0, 0⟩, ⟨2, 2⟩), by simp [segs], by
+    rw [lineCoord_iff]; exact ⟨1 / 2, by norm_num, by norm_num, by norm_num, by norm_num⟩⟩)
+
 /-- [T] (translator tie) the orientation and point-on-segment kernels of the model are, definition for
 definition, what `translator/rs2lean.py` regenerates from the Rust bodies on this run
 (`Kernel::orient2d`, `Line: Intersects<Coord>`, `Line: Intersects<Line>`, `point_in_rect`,
